@@ -62,6 +62,19 @@ def conds_c03(tier):
     return cs
 
 
+def conds_c09(tier):
+    import shapes
+
+    names = (["chain_sss", "chain_src_s_u_s", "join_s_s_into_s", "fork_unstored_mid", "dep_edge", "dep_source", "dep_source_2pred", "out_unstored"]
+             if tier == "quick" else [s.name for s in shapes.THOROUGH])
+    cs = [xhrun.Cond("harness_cache", "c09_order", {"XH_SHAPE": json.dumps(shapes.BY_NAME[nm].to_json())}, timeout=300,
+                     label=f"c09_order_{nm}") for nm in names]
+    if tier == "thorough":
+        cs += [xhrun.Cond("harness_cache", "c09_order", {"XH_SHAPE": json.dumps(shapes.BY_NAME[nm].to_json()), "XH_ORDER": "fifo"},
+                          timeout=300, label=f"c09_order_{nm}_fifo") for nm in names]
+    return cs
+
+
 def conds_c08(tier):
     import shapes
 
@@ -99,6 +112,16 @@ def main(pid):
         conds, extra = conds_c08(tier)
         ev.coverage["max_ops_per_shape"] = extra
         ev.coverage["oracle"] = "cut at operation k (every k < measured max op count): I holds after the cut; completed writes look up to date; follow-up run repairs and does not rewrite them"
+    elif pid == "C09":
+        conds = conds_c09(tier)
+        ev.assumptions.append("stores normalise: read() returns ('norm', written) so a consumer wired to the in-memory result is distinguishable")
+        ev.assumptions.append("'a before b in every schedule' is decided as 'the real physical plan has a path a ~> b' (engine contract C01, established by E2)")
+        ev.coverage["functions_under_test"] = ["uberjob.run(dry_run=True)", "caching.plan_with_value_stores", "caching._add_value_store",
+                                               "pruning.prune_plan", "pruning._prune_literal_if_trivial", "run_physical.run_physical"]
+        ev.coverage["oracle"] = ("physical plan of the real dry run vs declarative requirements: write call per rebuilt value fed by its call; write->read path; "
+                                 "argument consumers fed by the read node under the same key and never by the call; plain dependents after the write; "
+                                 "upstream write ~> downstream write; stale dependent source read after its predecessors; output redirected; "
+                                 "then the real run: outputs/stored values computed from normalised reads, event order w<r<consumer")
     else:
         raise SystemExit(f"no check for {pid}")
     results = xhrun.run_conditions(pid, conds)
